@@ -1,14 +1,64 @@
 /-
 C11 — sample weights mean multiplicity: weight k is k copies of the row.
-Property theorems only; helper lemmas live in `Lemmas/Weights.lean`.
+Property theorems only; helper lemmas live in `Lemmas/Weights.lean`, `Lemmas/FrameWeights.lean`,
+`Lemmas/PoolWeights.lean` and `Lemmas/C11Review.lean`.
 
 Every statement is for ALL row lists (no size bound), all group structures, all positive integer
 multiplicities (`PosMult`: every k ≥ 1 — with k = 0 the replicated data loses the row's labels and
 group, so the statement is genuinely about positive weights) and all scalings c > 0.
+
+CLAUSE → THEOREM TABLE (review R3).  Three models carry the clauses: (B) the base-metric model
+`Model/BaseMetrics.lean` = ops `w.metric`; (W) the one-feature frame of `Model/Weights.lean` (`byGroup`, `frame`, named
+metrics) = ops `w.frame`, `w.named`; (F) the full MetricFrame model `Model/Frame.lean` with the metric pool (any number
+of sensitive / control features, re-indexed empty combinations) = op `frame.eval`; "src_" = the translated
+_base_metrics.py (`Generated/BaseMetricsSrc.lean`).
+
+ 1 "weight k ≡ the row repeated k times with unit weight"
+     TPR/FNR/FPR/TNR     (B) weight_is_multiplicity_rate(_tpr/_fnr/_fpr/_tnr), src_weight_is_multiplicity_rate(_ones)
+                         (W) weight_is_multiplicity_by_group/_frame   (F) metricframe_rates_weight_is_multiplicity     FULL
+     selection_rate      (B) weight_is_multiplicity_selection_rate, src_…   (F) metricframe_two_params_…               FULL
+     mean_prediction     (B) weight_is_multiplicity_mean_prediction, src_…  (F) metricframe_two_params_…               FULL
+     MetricFrame sample_params (any payload, several parameters on one metric)  (F) metricframe_weight_is_multiplicity,
+                         metricframe_two_params_weight_is_multiplicity                                                FULL
+     named fairness metrics (W) weight_is_multiplicity_demographic_parity/_equal_opportunity/_equalized_odds,
+                         weight_is_multiplicity_difference_ratio                                                       FULL (one
+                         sensitive feature; the named metrics accept several columns, which fairlearn merges into one —
+                         that merge is C13's subject and is covered here by correspondence only)
+ 2 "multiplying all weights by a positive constant changes nothing"
+     (B) scale_invariant_rate/_selection_rate/_mean_prediction, src_scale_invariant_*  (W) scale_invariant(_by_group/
+     _frame/_named)  (F) metricframe_scale_invariant (generic), metricframe_pool_scale_invariant (rates + weighted means,
+     IEEE quotient)                                                                                                    FULL
+ 3 "omitting the weights is the same as passing all ones"
+     (B) none_eq_ones (the model's `attach`), ones_is_identity_replication; src_none_eq_ones (rates),
+     src_none_eq_ones_selection_rate, src_none_eq_ones_mean_prediction (translated source: `np.ones(len(...))`)          FULL
+     (F) by the protocol convention p0 = 1 for an omitted / None-valued sample parameter
+     (`_construct_annotated_metric_function` skips None values) — correspondence only (variants omitted / None / ones)
+ 4 "per group inside MetricFrame, including groups that consist of a single weighted row"
+     (W) replicate_commutes_with_grouping, weight_is_multiplicity_by_group, single_weighted_row_group,
+     single_weighted_row_selection_rate   (F) metricframe_weight_is_multiplicity (cells AND index)                      FULL
+
+TIE (review): `named_bases_are_lifted`, `eodds_worst_is_lifted`, `subOne_is_lifted` identify the hand-written named-metric
+bases / worst-case builtins / `ratio_sub_one` of `Model/Weights.lean` with the text lifted by `fairness_named.py` /
+`aggregate.py`.  Still hand-written (a lifter could provide them — reported): `minL`/`maxL`/`rabs` composition of
+`difference` and `ratio` in `Weights.aggregate` (min/max choice: `AggregateSpec.diffAgg` … exist but are not used here).
+
+TOTALISATION.  Every clause is an equation between the SAME function on two inputs, so a default could only make both
+sides equal "by accident" where fairlearn gives two different non-numbers.  Checked: with PosMult and a non-empty input
+the total weight is positive on both sides (`total_weight_positive`, `total_weight_positive_P`); the empty input raises on
+both sides (`eval` returns `.error .empty` / `.tooMany`, as fairlearn does; for mean_prediction numpy gives NaN, the model's
+`meanPred` an error token).  `weight_is_multiplicity_mean_prediction` needs no `PosMult`: a row of weight 0 contributes
+nothing to either sum, and if ALL k are 0 both sides are 0/0 (numpy: NaN on both sides; Lean: 0 on both sides —
+`mean_prediction_all_zero_is_totalisation`).  Scale invariance at total weight 0 is likewise NaN = NaN in numpy and 0 = 0
+here; in the (F) model the quotient is IEEE (`MetricPool.quot`), so there it is NaN = NaN literally.  `minL [] = maxL [] = 0`
+in `Weights.aggregate` is unreachable: `frame` fails before on an empty input, and a non-empty input has a group.
 -/
 import FairModel.Lemmas.Weights
 import FairModel.Lemmas.BaseMetricsSrc
 import FairModel.Lemmas.PoolWeights
+import FairModel.Lemmas.C11Review
+import FairModel.Lemmas.C14Review
+import FairModel.Generated.FairNamed
+import FairModel.Generated.AggregateSpec
 
 namespace C11
 open BaseMetrics Weights
@@ -297,6 +347,156 @@ theorem metricframe_two_params_weight_is_multiplicity (m : MetricPool.Metric)
 
 end Frame
 
+/-! ### 9. Review additions (R3) -/
+
+section Review
+open Frame
+
+/-- Clause 1/4 for the four RATES in the full MetricFrame model: any number of sensitive / control
+    features, same index (incl. re-indexed empty combinations) and same cells, same `overall` per control
+    stratum, on weighted and on replicated data. -/
+theorem metricframe_rates_weight_is_multiplicity (m : MetricPool.Metric)
+    (hm : m = .tpr ∨ m = .fpr ∨ m = .tnr ∨ m = .fnr)
+    (ncf nsf : Nat) (rows : List (Row MetricPool.Dat × Nat)) (hk : ∀ p ∈ rows, 1 ≤ p.2) :
+    Frame.byGroup Cell.nan ncf nsf (MetricPool.eval m) (weightedRows MetricPool.wtDat rows) =
+      Frame.byGroup Cell.nan ncf nsf (MetricPool.eval m) (replicatedRows MetricPool.wtDat rows) ∧
+    Frame.overall Cell.nan ncf (MetricPool.eval m) (weightedRows MetricPool.wtDat rows) =
+      Frame.overall Cell.nan ncf (MetricPool.eval m) (replicatedRows MetricPool.wtDat rows) :=
+  metricframe_weight_is_multiplicity Cell.nan MetricPool.wtDat ncf nsf _ (MetricPool.eval_weight_mult_rate m hm) rows hk
+
+/-- Clause 2 in the full MetricFrame model, generic: a row-wise change `g` of the payload that the metric
+    cannot see on any slice changes neither `by_group` (index and cells) nor `overall`. -/
+theorem metricframe_scale_invariant {α β : Type} (nanv : β) (g : α → α) (ncf nsf : Nat) (f : List α → β)
+    (hf : ∀ l, f (l.map g) = f l) (rows : List (Row α)) :
+    Frame.byGroup nanv ncf nsf f (mapDat g rows) = Frame.byGroup nanv ncf nsf f rows ∧
+    Frame.overall nanv ncf f (mapDat g rows) = Frame.overall nanv ncf f rows :=
+  ⟨applyFunctions_mapDat nanv Row.key keyIgnoresDat_key _ f g hf rows,
+   applyFunctions_mapDat nanv Row.ckey keyIgnoresDat_ckey _ f g hf rows⟩
+
+/-- … instantiated: every weight multiplied by c > 0, for the pool's four rates and its weighted means -/
+theorem metricframe_pool_scale_invariant (m : MetricPool.Metric)
+    (hm : m = .tpr ∨ m = .fpr ∨ m = .tnr ∨ m = .fnr ∨ m = .selrate ∨ m = .meanpred ∨ m = .accuracy ∨
+          m = .meanerr ∨ m = .zeroOne ∨ m = .mae ∨ m = .mse)
+    (c : Rat) (hc : 0 < c) (ncf nsf : Nat) (rows : List (Row MetricPool.Dat)) :
+    Frame.byGroup Cell.nan ncf nsf (MetricPool.eval m) (mapDat (MetricPool.scDat c) rows) =
+      Frame.byGroup Cell.nan ncf nsf (MetricPool.eval m) rows ∧
+    Frame.overall Cell.nan ncf (MetricPool.eval m) (mapDat (MetricPool.scDat c) rows) =
+      Frame.overall Cell.nan ncf (MetricPool.eval m) rows :=
+  metricframe_scale_invariant Cell.nan (MetricPool.scDat c) ncf nsf _ (MetricPool.eval_scale_inv m hm c hc) rows
+
+/-- Clause 3 for the translated `selection_rate` / `mean_prediction`: `sample_weight=None` is
+    `np.ones(len(y_pred))` -/
+theorem src_none_eq_ones_selection_rate (yt yp : List Int) (pos : Int) :
+    BaseMetricsSrc.selection_rate yt yp pos none =
+      BaseMetricsSrc.selection_rate yt yp pos (some (NumpySk.ones yp.length)) := by
+  simp [BaseMetricsSrc.selection_rate, NumpySk.eqInd]
+
+theorem src_none_eq_ones_mean_prediction (yt yp : List Rat) :
+    BaseMetricsSrc.mean_prediction yt yp none =
+      BaseMetricsSrc.mean_prediction yt yp (some (NumpySk.ones yp.length)) := by
+  simp [BaseMetricsSrc.mean_prediction]
+
+/-- the quotients of `mean_prediction` are genuine on both sides (positive multiplicities, ≥ 1 row) -/
+theorem total_weight_positive_P (rows : List (PRow × Nat)) (hk : PosMult rows) (hne : rows ≠ []) :
+    0 < totalP (weightedP rows) ∧ 0 < totalP (replicateP rows) := by
+  constructor
+  · apply totalP_pos
+    · cases rows with
+      | nil => exact absurd rfl hne
+      | cons x xs => simp [weightedP]
+    · intro r hr
+      simp only [weightedP, List.mem_map] at hr
+      obtain ⟨p, hp, rfl⟩ := hr
+      have : (1 : Rat) ≤ (p.2 : Rat) := by exact_mod_cast hk p hp
+      show (0 : Rat) < (p.2 : Rat)
+      linarith
+  · apply totalP_pos
+    · cases rows with
+      | nil => exact absurd rfl hne
+      | cons x xs =>
+        have h1 : 1 ≤ x.2 := hk x (by simp)
+        obtain ⟨n, hn⟩ : ∃ n, x.2 = n + 1 := ⟨x.2 - 1, by omega⟩
+        obtain ⟨r, k⟩ := x
+        simp only at hn
+        simp [replicateP, hn, List.replicate_succ]
+    · intro r hr
+      simp only [replicateP, List.mem_flatMap, List.mem_replicate] at hr
+      obtain ⟨p, _, _, rfl⟩ := hr
+      show (0 : Rat) < 1
+      norm_num
+
+/-- TOTALISATION WITNESS: if every multiplicity is 0 both sides of `weight_is_multiplicity_mean_prediction`
+    are Lean's `0 / 0 = 0`; numpy gives NaN on both sides (weighted: 0/0, replicated: mean of nothing).
+    Outside the property's quantifier (positive weights); with `PosMult` see `total_weight_positive_P`. -/
+theorem mean_prediction_all_zero_is_totalisation (rows : List (PRow × Nat)) (h0 : ∀ p ∈ rows, p.2 = 0) :
+    meanPrediction (weightedP rows) = 0 ∧ meanPrediction (replicateP rows) = 0 := by
+  have e2 : replicateP rows = [] := by
+    simp only [replicateP, List.flatMap_eq_nil_iff]
+    intro p hp
+    have := h0 p hp
+    obtain ⟨r, k⟩ := p
+    simp only at this
+    simp [this]
+  constructor
+  · apply meanPrediction_zero_total_is_totalisation
+    unfold totalP weightedP
+    rw [List.map_map]
+    have : (rows.map ((fun r : PRow => r.w) ∘ fun x : PRow × Nat => match x with | (r, k) => { r with w := (k : Rat) })) =
+        rows.map (fun _ => (0 : Rat)) := by
+      apply List.map_congr_left
+      intro p hp
+      have := h0 p hp
+      obtain ⟨r, k⟩ := p
+      simp only at this
+      simp [this]
+    rw [this]; simp
+  · rw [e2]; simp [meanPrediction]
+
+end Review
+
+/-! ### 10. Tie of the hand-written pieces of `Model/Weights.lean` to LIFTED source text (review R3)
+
+`Model/Weights.lean` writes out which base metric each named fairness metric disaggregates, the worst-case
+builtins of `equalized_odds_*` and `ratio_sub_one` by hand.  The lifters `fairness_named.py` and `aggregate.py`
+regenerate the same facts from `_fairness_metrics.py` / `_disaggregated_result.py` on every run; the theorems below
+identify the two, so a source edit there breaks a proof of this module instead of going unnoticed. -/
+
+section LiftedTie
+
+/-- the `Weights.Metric` a lifted base-metric name stands for (`pos_label` defaults) -/
+def baseMetric : FairNamed.Base → Metric
+  | .selrate => .sel 1
+  | .tpr => .rate .tpr none
+  | .fpr => .rate .fpr none
+
+/-- which metric `demographic_parity_*`, `equal_opportunity_*` and the two columns of `equalized_odds_*`
+    disaggregate — as lifted from `_fairness_metrics.py` -/
+theorem named_bases_are_lifted :
+    selMetric = baseMetric FairNamed.dpBase ∧ tprMetric = baseMetric FairNamed.eoppBase ∧
+    tprMetric = baseMetric FairNamed.eoddsFirst ∧ fprMetric = baseMetric FairNamed.eoddsSecond :=
+  ⟨rfl, rfl, rfl, rfl⟩
+
+/-- `agg="worst_case"` is Python's `max` for the difference and `min` for the ratio (`eoDifference` uses
+    `rmax`, `eoRatio` uses `pyMin`) — as lifted -/
+theorem eodds_worst_is_lifted :
+    FairNamed.eoddsDiffWorst = .pymax ∧ FairNamed.eoddsRatioWorst = .pymin := ⟨rfl, rfl⟩
+
+/-- the hand-written `subOne` is the lifted `ratio_sub_one` on every float (NaN, ±inf included) -/
+theorem subOne_is_lifted (x : XR) : subOne x = AggregateSpec.ratioSubOne x := by
+  cases x with
+  | nan => rfl
+  | ninf => rfl
+  | pinf => rfl
+  | fin q =>
+    unfold subOne AggregateSpec.ratioSubOne
+    simp only [XR.lt, XR.div]
+    by_cases h : 1 < q
+    · have hq : q ≠ 0 := by intro h0; rw [h0] at h; norm_num at h
+      simp [h, hq]
+    · simp [h]
+
+end LiftedTie
+
 /-! ### Non-vacuity: concrete inputs meeting the hypotheses, evaluated by the kernel. -/
 
 /-- the F1 regression input: y_true=[1,0,1], y_pred=[1,0,0], groups a,b,b, weights 2,1,3 -/
@@ -325,5 +525,56 @@ example : Frame.byGroup Frame.Cell.nan 0 1 (MetricPool.eval .fpPar) (Frame.weigh
     [(["a"], .scalar (.fin 56)), (["b"], .scalar (.fin 8))] := by decide +kernel
 example : Frame.byGroup Frame.Cell.nan 0 1 (MetricPool.eval .fpPar) (Frame.replicatedRows MetricPool.wtDat tp) =
     [(["a"], .scalar (.fin 56)), (["b"], .scalar (.fin 8))] := by decide +kernel
+
+
+/-! ### Joint non-vacuity (review): one concrete input per theorem family meeting ALL hypotheses at once,
+on the interesting branch -/
+-- weight_is_multiplicity_by_group / _frame / named: ≥ 2 groups, both labels, a single-row group with weight 2
+example : PosMult f1 ∧ f1 ≠ [] ∧ keys (wWeighted f1) = [0, 1] ∧
+    byGroup tprMetric (wWeighted f1) = byGroup tprMetric (wReplicate f1) ∧
+    byGroup tprMetric (wWeighted f1) = [(0, .ok 1), (1, .ok 0)] := by
+  unfold PosMult f1; decide +kernel
+-- single_weighted_row_group: all hypotheses at once (group 0 of f1 is ONE row with weight 2)
+example : PosMult f1 ∧ groupPairs 0 f1 = [(⟨0, 1, 1, 1, 0⟩, 2)] ∧
+    eval (.sel 1) (groupRows 0 (wWeighted f1)) = .ok 1 := by unfold PosMult f1; decide +kernel
+-- scale_invariant*: c = 3/4 > 0 on weights that are not all equal
+example : (0 : Rat) < 3/4 ∧ frame selMetric (wScale (3/4) (wWeighted f1)) = frame selMetric (wWeighted f1) ∧
+    (frame selMetric (wWeighted f1)).map (·.diffBetween) = .ok 1 := by decide +kernel
+-- base level incl. a non-default encoding with pos_label given
+def r37 : List (Row × Nat) := [(⟨7, 7, 0⟩, 2), (⟨7, 3, 0⟩, 1), (⟨3, 7, 0⟩, 3), (⟨3, 3, 0⟩, 1)]
+example : PosMult r37 ∧ rate .tpr (weighted r37) (some 7) = .ok (2/3) ∧ rate .tpr (replicate r37) (some 7) = .ok (2/3) ∧
+    (replicate r37).length = 7 := by unfold PosMult r37; decide +kernel
+-- total_weight_positive_P / weight_is_multiplicity_mean_prediction
+def p3 : List (PRow × Nat) := [(⟨1/2, 0⟩, 2), (⟨0, 0⟩, 1), (⟨3/4, 0⟩, 3)]
+example : PosMult p3 ∧ p3 ≠ [] ∧ meanPrediction (weightedP p3) = 13/24 ∧ meanPrediction (replicateP p3) = 13/24 := by
+  unfold PosMult p3; decide +kernel
+-- metricframe_weight_is_multiplicity / _two_params_: the multiplicity hypothesis of `tp`
+example : ∀ p ∈ tp, 1 ≤ p.2 := by decide +kernel
+/-- full MetricFrame model: one control and two sensitive features, 8 index tuples of which 4 are EMPTY
+    combinations (NaN), multiplicities 1..5 -/
+def tr : List (Frame.Row MetricPool.Dat × Nat) :=
+  [(⟨⟨1, 1, 0, 0⟩, ["s"], ["a", "x"]⟩, 2), (⟨⟨1, 0, 0, 0⟩, ["s"], ["a", "x"]⟩, 1), (⟨⟨0, 1, 0, 0⟩, ["s"], ["a", "y"]⟩, 3),
+   (⟨⟨1, 1, 0, 0⟩, ["t"], ["b", "x"]⟩, 1), (⟨⟨0, 0, 0, 0⟩, ["t"], ["b", "x"]⟩, 4), (⟨⟨1, 0, 0, 0⟩, ["s"], ["b", "x"]⟩, 5)]
+-- metricframe_rates_weight_is_multiplicity
+example : (∀ p ∈ tr, 1 ≤ p.2) ∧
+    Frame.byGroup Frame.Cell.nan 1 2 (MetricPool.eval .tpr) (Frame.weightedRows MetricPool.wtDat tr) =
+      [(["s", "a", "x"], .scalar (.fin (2/3))), (["s", "a", "y"], .scalar (.fin 0)), (["s", "b", "x"], .scalar (.fin 0)),
+       (["s", "b", "y"], .scalar .nan), (["t", "a", "x"], .scalar .nan), (["t", "a", "y"], .scalar .nan),
+       (["t", "b", "x"], .scalar (.fin 1)), (["t", "b", "y"], .scalar .nan)] ∧
+    Frame.byGroup Frame.Cell.nan 1 2 (MetricPool.eval .tpr) (Frame.replicatedRows MetricPool.wtDat tr) =
+      Frame.byGroup Frame.Cell.nan 1 2 (MetricPool.eval .tpr) (Frame.weightedRows MetricPool.wtDat tr) ∧
+    Frame.overall Frame.Cell.nan 1 (MetricPool.eval .fpr) (Frame.weightedRows MetricPool.wtDat tr) =
+      [(["s"], .scalar (.fin 1)), (["t"], .scalar (.fin 0))] := by decide +kernel
+-- metricframe_pool_scale_invariant: c = 3/4
+example : (0 : Rat) < 3/4 ∧
+    Frame.byGroup Frame.Cell.nan 1 2 (MetricPool.eval .selrate)
+        (Frame.mapDat (MetricPool.scDat (3/4)) (Frame.weightedRows MetricPool.wtDat tr)) =
+      Frame.byGroup Frame.Cell.nan 1 2 (MetricPool.eval .selrate) (Frame.weightedRows MetricPool.wtDat tr) ∧
+    (Frame.byGroup Frame.Cell.nan 1 2 (MetricPool.eval .selrate) (Frame.weightedRows MetricPool.wtDat tr)).lookup
+      ["t", "b", "x"] = some (.scalar (.fin (1/5))) := by decide +kernel
+-- src_none_eq_ones_*: a weighted call really differs from the unweighted one (the clause is not vacuous)
+example : BaseMetricsSrc.selection_rate [1, 0] [1, 0] 1 none = .ok (1/2) ∧
+    BaseMetricsSrc.selection_rate [1, 0] [1, 0] 1 (some [3, 1]) = .ok (3/4) ∧
+    BaseMetricsSrc.mean_prediction [] [1, 0] none = .ok (1/2) := by decide +kernel
 
 end C11
